@@ -100,7 +100,7 @@ class Factory(object):
 
     # ---- structures
     def obj(self, cls, **fields):
-        if isinstance(cls, str) and cls.startswith("html5lib."):
+        if isinstance(cls, str) and (cls.startswith("html5lib.") or cls.startswith("spec.")):
             ci = repo.find_function(cls)
             if not isinstance(ci, ClassInfo):
                 raise OutOfReach("not a class: " + cls)
